@@ -1262,7 +1262,7 @@ def fals_c08(mm, t2, t3):
 
 def fals_c05_text(text):
     """C05 on the reader side: when the reader accepts `text` (at least one atom), the string the pipeline emits
-    is a sentence of the grammar in canonical layout and the library's own parser accepts it.
+    is a sentence of the grammar in canonical layout.
     -> (string | None, problems)"""
     import validator
     g, err = read_graph(text)
@@ -1276,10 +1276,9 @@ def fals_c05_text(text):
     for _, d in g.nodes(data=True):
         counts[d["element_symbol"]] = counts.get(d["element_symbol"], 0) + 1
     labelled = sum(1 for _, d in g.nodes(data=True) if "mass" in d or "rad" in d)
+    # judged by the independent validator only (C05 is about the emitted string; whether the library's own parser
+    # accepts it again is C03's business)
     probs = validator.validate(s, counts, g.number_of_edges(), labelled)
-    po = impl.parse_outcome(s)
-    if po[0] != "ok":
-        probs.append("graph_from_tucan does not accept the emitted string %r: %s" % (s[:120], po[0]))
     return s, probs
 
 
@@ -1336,26 +1335,26 @@ def c01_descriptions(run, model):
             run.notes.append("C01 descriptions: time budget reached")
             break
         run.count("C01_text_atoms:" + size_bucket(mm.n()))
-        texts = [("V3000 plain", render3000(mm, rng))]
-        for k in range(4 if mm.n() < 100 else 3):
-            pm = mm_permute(mm, rng)
-            if k % 2 == 0:
-                texts.append(("V2000 renumbered", render2000(pm, rng, charge_mode="lines", grouping="random", order=True) if mm.n() >= 100
-                              else render2000(pm, rng, **random_knobs2(rng))))
-            else:
-                texts.append(("V3000 renumbered", render3000(pm, rng, **random_knobs3(rng))))
-        strings = []
-        for tag, text in texts:
-            run.evaluations += 1
-            correspond(run, model, "K2" if tag.startswith("V2000") else "K1", text, "C01:" + tag)
-            g, err = read_graph(text)
-            strings.append(impl.tucan_of(g) if g is not None else "reader raised " + err)
-        for (tag, text), s in zip(texts[1:], strings[1:]):
-            if s != strings[0]:
-                run.falsifier_hits.append({"property": "C01", "what": "two molfile descriptions of one molecule (%s vs %s) give different strings" % (texts[0][0], tag),
-                                           "key": "C01:text:" + tag, "case": {"kind": "C01-text", "text": texts[0][1], "text_b": text},
-                                           "extra": {"a": strings[0][:300], "b": s[:300]}})
-                break
+        # C01 varies the numbering of atoms, the listing order of atoms and bonds and the direction of bonds -- nothing else:
+        # all renderings of one group use the same format and the same (plain) spelling
+        groups = [[("V3000", render3000(mm, rng))] + [("V3000 renumbered", render3000(mm_permute(mm, rng), rng)) for _ in range(2)]]
+        if v2ok(mm):
+            groups.append([("V2000", render2000(mm, rng, charge_mode="lines"))] +
+                          [("V2000 renumbered", render2000(mm_permute(mm, rng), rng, charge_mode="lines")) for _ in range(2)])
+        for texts in groups:
+            strings = []
+            for tag, text in texts:
+                run.evaluations += 1
+                correspond(run, model, "K2" if tag.startswith("V2000") else "K1", text, "C01:" + tag)
+                g, err = read_graph(text)
+                strings.append(impl.tucan_of(g) if g is not None else "reader raised " + err)
+            for (tag, text), s_ in zip(texts[1:], strings[1:]):
+                if s_ != strings[0]:
+                    run.falsifier_hits.append({"property": "C01", "what": "two molfile descriptions of one molecule (%s vs %s: same spelling, other atom numbering / listing order / bond direction) give different strings" % (texts[0][0], tag),
+                                               "key": "C01:text:" + tag, "case": {"kind": "C01-text", "text": texts[0][1], "text_b": text},
+                                               "extra": {"a": strings[0][:300], "b": s_[:300]}})
+                    break
+        texts = groups[0]
         if mm.n() >= 3:
             run.nontrivial.add(digest(texts[0][1]))
 
@@ -1947,7 +1946,9 @@ def c06(run, model):
     rng = run.sub_rng("c06")
     sc = scale_of(run)
     t_end = time.time() + (75 if run.tier == "quick" else 900)
-    mms = list(directed3000()) + list(mm_stream(run.sub_rng("c06/mm"), 250 * sc, v2ok=False, stars=True))
+    # three-digit atom numbers first (the numeric atom indices used in a file are non-identity data)
+    mms = [wide_mm(rng, size) for size in ([120, 300] if run.tier == "quick" else [100, 101, 260, 999])]
+    mms += list(directed3000()) + list(mm_stream(run.sub_rng("c06/mm"), 250 * sc, v2ok=False, stars=True))
     mms += [mm for mm in mm_stream(run.sub_rng("c06/mm2"), 400 * sc, v2ok=True, stars=True) if v2ok(mm)][:250 * sc]
     for i, mm in enumerate(mms):
         run.count("C06_atoms:" + size_bucket(mm.n()))
